@@ -55,12 +55,12 @@ def lifecycle(case):
     import lazy_dataset
     n, cont = case['n'], case['container']
     root = tempfile.mkdtemp(prefix='verif_c11_')
-    d = Path(root) / 'cache'
+    d = Path(root) / ('cache[v2]' if case.get('odd_name') else 'cache')
     desc = f'{case}'
     spelled = str(d)
     if case.get('spelled') == 'envvar':
         os.environ['VERIF_C11_ROOT'] = root
-        spelled = '$VERIF_C11_ROOT/cache'
+        spelled = '$VERIF_C11_ROOT/' + d.name
     elif case.get('spelled') == 'path':
         spelled = d
     calls = {}
@@ -85,7 +85,7 @@ def lifecycle(case):
     try:
         if case.get('foreign'):
             d.mkdir()
-            (d / 'foreign.txt').write_text('x')
+            (d / ('.gitkeep' if case['foreign'] == 'dotfile' else 'foreign.txt')).write_text('x')
             dir_used = True
 
         def upstream():
@@ -245,7 +245,9 @@ def st_lifecycle(draw):
         if draw(st.booleans()):
             steps += [['release', 0]] * 4  # make sure the session is closed before the next open
     case = {'mode': 'lifecycle', 'n': n, 'container': draw(st.sampled_from(['list', 'dict'])),
-            'foreign': draw(st.integers(0, 5)) == 0, 'steps': steps}
+            'foreign': draw(st.sampled_from([False, False, False, False, True, 'dotfile'])), 'steps': steps}
+    if draw(st.integers(0, 4)) == 0:
+        case['odd_name'] = True
     if draw(st.integers(0, 3)) == 0:
         case['none_pos'] = draw(st.integers(0, n - 1))
     sp = draw(st.sampled_from(['str', 'str', 'path', 'envvar']))
@@ -350,9 +352,36 @@ def kill_case(case):
         shutil.rmtree(root, ignore_errors=True)
 
 
+def default_dir_case(case):
+    """diskcache() without a directory: a fresh directory is chosen; clear decides whether it survives the release."""
+    import re
+    import lazy_dataset
+    clear = case['clear']
+    ds = lazy_dataset.new([1, 2, 3]).map(lambda x: x + 1).diskcache(clear=clear)
+    got = list(ds)
+    m = re.search(r'cache_dir=(.*), reuse=', str(ds))
+    if got != [2, 3, 4] or not m:
+        raise Violation('default-dir-values', f'{case}: {got} {str(ds)!r}')
+    path = m.group(1)
+    try:
+        if not os.path.isdir(path):
+            raise Violation('default-dir-missing', f'{case}: {path} does not exist while the dataset is alive')
+        del ds
+        gc.collect()
+        if clear and os.path.exists(path):
+            raise Violation('directory-not-cleared', f'{case}: clear=True but {path} still exists after the release')
+        if not clear and not os.path.isdir(path):
+            raise Violation('directory-removed-despite-clear-false',
+                            f'{case}: diskcache(clear=False) without a directory: {path} was removed on release')
+    finally:
+        shutil.rmtree(path, ignore_errors=True)
+
+
 def replay(case):
     progcheck.setup_process()
     patch_disk()
+    if case['mode'] == 'default_dir':
+        return default_dir_case(case)
     if case['mode'] == 'kill':
         kill_case(case)
     else:
@@ -386,6 +415,17 @@ def run_shard(tier, idx, nshards, rec, known):
                 rec.case(dict(case, acknowledged=acked), acked >= 1, ['kill', f'kill-after:{j}', 'fill:' + fill,
                                                                       'large-payload' if max(sizes) > 32768 else 'small'],
                          size=n)
+
+    if idx == 0:
+        for clear in (True, False):
+            case = {'mode': 'default_dir', 'clear': clear}
+            try:
+                default_dir_case(case)
+            except Violation as v:
+                if not known.match(v.sig):
+                    out.violation = (case, v.sig, v.detail)
+                    return [out]
+            rec.case(case, True, ['default-dir'])
 
     def one(case):
         events = lifecycle(case)
